@@ -307,9 +307,11 @@ class RealRun:
         try:
             if api == "find_matches":
                 raw = program.find_matches(pattern)
-                first = program.find_match(pattern)
-                if (first is None) != (not raw) or (raw and canon_shape(first) != canon_shape(raw[0])):
-                    self.first_differs = True
+                # find_match must be find_matches[0]: on every small program, on a quarter of the large ones
+                if program.size <= 60 or (len(pattern) + program.size) % 4 == 0:
+                    first = program.find_match(pattern)
+                    if (first is None) != (not raw) or (raw and canon_shape(first) != canon_shape(raw[0])):
+                        self.first_differs = True
             elif api == "prev":
                 raw = program.find_matches(pattern, use_previous=parent)
             else:
@@ -527,7 +529,10 @@ MONO_TRIPLES = [
 
 
 # matches within matches on fixed inputs: (parent pattern, program, key of the parent's __e__, sub-pattern,
-# what C11 expects of the sub-pattern inside the bound subtree: None = nothing, {} = a match, {k: id} = bindings)
+# what C11 expects of the sub-pattern inside the bound subtree: None = nothing, {} = a match, {k: v} = bindings:
+# for a _var_ key the identifier, for an __expr__ key the SOURCE TEXT of the node it must be bound to).
+# Every entry is run as node.find_matches(sub, use_previous=False / True) and as
+# cait_api.find_matches(sub, program, use_previous=parent match).
 SUB_CORPUS = [
     ("_v_ = __e__", "x = y", "__e__", "_v_", None),
     ("_v_ = __e__", "x = y + 1", "__e__", "_v_ + 1", None),
@@ -1217,8 +1222,7 @@ def decoy_scope(rng, n_templates, wraps=("{B}",)):
                 continue
             for v in ids:
                 keep = [i for i, (o, _) in enumerate(order) if o in (v, None)]
-                names = [v] if w != v else [v]
-                d = derive_keep(code, tree, keep, names)
+                d = derive_keep(code, tree, keep, [v])
                 if d is not None:
                     yield code, d
                 if n_fixed and rng.random() < 0.3:
